@@ -242,6 +242,9 @@ def gains_bounded_instance():
         lo, hi = inp['range']
         real = which in ('vmfmm', 'vmf')
         y = rng.normal(size=(F, N, D)) + (0 if real else 1j * rng.normal(size=(F, N, D)))
+        if hi < 2 and lo > 0.5:
+            # gains next to one act on frames that are (almost exactly) unit norm already
+            y = y / np.linalg.norm(y, axis=-1, keepdims=True)
         mag = np.exp(rng.uniform(np.log(lo), np.log(hi), size=(F, N, 1)))
         c = mag if real else mag * np.exp(1j * rng.uniform(0, 2 * np.pi, size=(F, N, 1)))
         emb = rng.normal(size=(F, N, 4))
